@@ -226,6 +226,14 @@ def nested_base(d, variant):
             if d == 3:
                 with_ref = {idk: ROOT, "properties": {"r": {"type": [{idk: "dir/", "extends": [{"$ref": "leaf.json"}]}, {"$ref": "leaf.json"}]}}}
                 inl = {"properties": {"r": {"type": [{"extends": [leaf_in_dir]}, leaf_at_root]}}}
+        elif variant in ("bool-target-true", "bool-target-false"):
+            # a reference into another document lands on a boolean schema; the next sibling reference is local to the root
+            bt = variant.endswith("true")
+            store["http://x.test/other.json"] = {"definitions": {"t": bt, "n": {"enum": []}}}
+            with_ref = {idk: ROOT, "definitions": {"n": leaf_at_root},
+                        "properties": {"p": {"$ref": "http://x.test/other.json#/definitions/t"}, "r": {"$ref": "#/definitions/n"}},
+                        "additionalProperties": {"$ref": "leaf.json"}}
+            inl = {"properties": {"p": bt, "r": leaf_at_root}, "additionalProperties": leaf_at_root}
         else:
             raise ValueError(variant)
         got = observe(d, with_ref, x, store)
@@ -237,6 +245,7 @@ def nested_base(d, variant):
 
 
 NESTED = ["dir-then-root", "root-then-dir", "absolute-id-below", "target-with-own-id", "through-anyOf-failure"]
+NESTED_BOOL = ["bool-target-true", "bool-target-false"]
 
 
 # ---- recursion -----------------------------------------------------------------------------------------
@@ -276,7 +285,7 @@ def conditions(tier, seed, active):
                         witness=["valid", "invalid"] if wit else []))
 
     for d in (3, 4, 6, 7):
-        for v in NESTED:
+        for v in NESTED + (NESTED_BOOL if d >= 6 else []):
             c("nested-base/%s/d%d" % (v, d), "nested_base", dict(d=d, variant=v), timeout=1500, wit=(d == 7))
         for v in ("root", "definition"):
             c("recursion/%s/d%d" % (v, d), "recursion", dict(d=d, variant=v), timeout=1500, wit=(d == 4))
